@@ -703,15 +703,9 @@ func (p *Process) ceaseFlowMonitor(tracer tracing.ITracer) func(ctx context.Cont
 				trace = tracing.Unwrap(trace)
 				switch t := trace.(type) {
 				case TerminationTrace:
-					switch flowNode := t.Source.(type) {
-					case *schema.StartEvent:
-						startEventsActivated = append(startEventsActivated, flowNode)
-					}
+					startEventsActivated = startEventFired(p.element.StartEvents(), startEventsActivated, t.Source)
 				case FlowTrace:
-					switch flowNode := t.Source.(type) {
-					case *schema.StartEvent:
-						startEventsActivated = append(startEventsActivated, flowNode)
-					}
+					startEventsActivated = startEventFired(p.element.StartEvents(), startEventsActivated, t.Source)
 				}
 			case <-ctx.Done():
 				tracer.Unsubscribe(traces)
@@ -734,6 +728,27 @@ func (p *Process) ceaseFlowMonitor(tracer tracing.ITracer) func(ctx context.Cont
 		case <-ctx.Done():
 		}
 	}
+}
+
+// startEventFired adds the start event a trace reports to those that have fired:
+// once, and only if it is one of the container's own (the traces of a sub-process's
+// inner start events pass through the container's tracer as well)
+func startEventFired(own *[]schema.StartEvent, fired []*schema.StartEvent, source schema.FlowNodeInterface) []*schema.StartEvent {
+	startEvent, ok := source.(*schema.StartEvent)
+	if !ok {
+		return fired
+	}
+	for _, seen := range fired {
+		if seen == startEvent {
+			return fired
+		}
+	}
+	for i := range *own {
+		if &(*own)[i] == startEvent {
+			return append(fired, startEvent)
+		}
+	}
+	return fired
 }
 
 // WaitUntilComplete waits until the instance is complete.
